@@ -18,9 +18,11 @@ suite `build`: `to_marrow(fields, rows)`.
           success the same decoded content column by column (and physically equal arrays are tagged), on
           error the same annotations;
   spec  : C01 decode(impl arrays) = interp(rows)      (SaModel/Spec/{Decode,Interp})
-          C03 WF field array, one length, one array per field   (SaModel/Spec/WF) — for EVERY accepted input, rows
+          C03 WF field array (= structurally valid, `WFS`, AND `Spec.typeOf array = field.dataType`), one length, one array
+              per field (SaModel/Spec/WF); the same through `to_arrow` / `to_record_batch` / `to_arrow2` (`backendC03`:
+              arrow-rs `validate_full`, `data_type()` of every array = the field's, the batch is built) — for EVERY accepted input, rows
               with malformed key/value call streams (`containsMalformed`) included: since repo fix eafdf15 a Map builder
-              refuses the streams that do not alternate and `C03_wf` carries no hypothesis about them, so a malformed
+              refuses the streams that do not alternate and `C03_wfS` carries no hypothesis about them, so a malformed
               stream into a schema is never accepted with arrays that are not well formed
           C05 success ⇒ every row was representable; a malformed call stream accepted with arrays that are not well
               formed fails it (and C16: a failure that was not reported as an error)
@@ -113,27 +115,148 @@ partial def hasFsb0 (f : Field) : Bool :=
   | .union fs _ => fs.toList.any (fun x => hasFsb0 x.2)
   | _ => false
 
-/-- like `culprit`, and says when the failing node sits above a zero-width binary column (whose array cannot carry
+/-- the deepest sub-array that is not `WF` for its field, with that field -/
+partial def culpritNode (f : Field) (a : Arr) : Field × Arr :=
+  match f.dataType, a with
+  | .struct fs, .struct _ _ cols =>
+    match (fs.toList.zip cols.toList).find? (fun (cf, (_, ca)) => !WF cf ca) with
+    | some (cf, (_, ca)) => culpritNode cf ca
+    | none => (f, a)
+  | .list c, .list _ _ _ _ el | .largeList c, .list _ _ _ _ el | .fixedSizeList c _, .fixedSizeList _ _ _ _ el =>
+    if !WF c el then culpritNode c el else (f, a)
+  | .map (.mk _ (.struct (.cons kf (.cons vf _))) _ _) _, .map _ _ _ ks vs =>
+    if !WF kf ks then culpritNode kf ks else if !WF vf vs then culpritNode vf vs else (f, a)
+  | .union fs _, .union _ _ cols =>
+    match (fs.toList.zip cols.toList).find? (fun ((_, cf), (_, _, ca)) => !WF cf ca) with
+    | some ((_, cf), (_, _, ca)) => culpritNode cf ca
+    | none => (f, a)
+  | _, _ => (f, a)
+
+/-! ### C03: type equality and the arrow / arrow2 oracle -/
+
+mutual
+/-- first aspect in which the array's data type (`Spec.typeOf`) differs from the declared one -/
+partial def typeDiff (want got : DataType) : Option String :=
+  match want, got with
+  | .list f, .list g => fieldDiffT "List" f g
+  | .largeList f, .largeList g => fieldDiffT "LargeList" f g
+  | .fixedSizeList f n, .fixedSizeList g m => if n != m then some "FixedSizeList/size" else fieldDiffT "FixedSizeList" f g
+  | .struct fs, .struct gs =>
+    if fs.toList.length != gs.toList.length then some "Struct/children"
+    else (fs.toList.zip gs.toList).findSome? fun (f, g) => fieldDiffT "Struct" f g
+  | .map e s, .map e' s' =>
+    if s != s' then some "Map/sorted"
+    else if e.name != e'.name then some "Map/entries-name"
+    else if e.nullable != e'.nullable then some "Map/entries-nullable"
+    else if e.metadata != e'.metadata then some "Map/entries-metadata"
+    else typeDiff e.dataType e'.dataType
+  | .dictionary k v, .dictionary k' v' =>
+    match typeDiff k k' with
+    | some d => some d
+    | none => typeDiff v v'
+  | .union fs m, .union gs n =>
+    if m != n then some "Union/mode"
+    else if fs.toList.length != gs.toList.length then some "Union/children"
+    else (fs.toList.zip gs.toList).findSome? fun ((i, f), (k, g)) =>
+      if i != k then some "Union/type-id" else fieldDiffT "Union" f g
+  | a, b => if a == b then none else if a.ctor == b.ctor then some s!"{a.ctor}/parameter" else some s!"{a.ctor}/kind"
+partial def fieldDiffT (parent : String) (f g : Field) : Option String :=
+  if f.name != g.name then some s!"{parent}/child-name"
+  else if f.nullable != g.nullable then some s!"{parent}/child-nullable"
+  else if f.metadata != g.metadata then some s!"{parent}/child-metadata"
+  else typeDiff f.dataType g.dataType
+end
+
+/-- signature of a column that is not `WF`: the deepest failing node; when that node is structurally valid (`WFS`) and
+only its data type differs from the declared one, the ASPECT of the difference (`type/Map/entries-metadata`, …); else the
+node's data type with its size parameter, and whether it sits above a zero-width binary column (whose array cannot carry
 its length: known finding) -/
-partial def culpritSig (f : Field) (a : Arr) : String :=
-  let rec go (f : Field) (a : Arr) : Field :=
-    match f.dataType, a with
-    | .struct fs, .struct _ _ cols =>
-      match (fs.toList.zip cols.toList).find? (fun (cf, (_, ca)) => !WF cf ca) with
-      | some (cf, (_, ca)) => go cf ca
-      | none => f
-    | .list c, .list _ _ _ _ el | .largeList c, .list _ _ _ _ el | .fixedSizeList c _, .fixedSizeList _ _ _ _ el =>
-      if !WF c el then go c el else f
-    | .map (.mk _ (.struct (.cons kf (.cons vf _))) _ _) _, .map _ _ _ ks vs =>
-      if !WF kf ks then go kf ks else if !WF vf vs then go vf vs else f
-    | .union fs _, .union _ _ cols =>
-      match (fs.toList.zip cols.toList).find? (fun ((_, cf), (_, _, ca)) => !WF cf ca) with
-      | some ((_, cf), (_, _, ca)) => go cf ca
-      | none => f
-    | _, _ => f
-  let c := go f a
-  let own := dtParam c.dataType
-  if own != "FixedSizeBinary(0)" && hasFsb0 c then own ++ "~FixedSizeBinary(0)" else own
+def culpritSig (f : Field) (a : Arr) (anyFsb0 : Bool := false) : String :=
+  let (c, ca) := culpritNode f a
+  if WFS c ca && typeOf ca != c.dataType then
+    -- (a schema that ALSO holds a zero-width binary column keeps that marker: the case fails C01 / C03 for that known
+    -- reason as well, whichever column is looked at first)
+    s!"type/{(typeDiff c.dataType (typeOf ca)).getD "-"}{if anyFsb0 then "~FixedSizeBinary(0)" else ""}"
+  else
+    let own := dtParam c.dataType
+    if own != "FixedSizeBinary(0)" && hasFsb0 c then own ++ "~FixedSizeBinary(0)" else own
+
+/-- data types a back end does not offer (marrow 0.2.3 conversions) — the SAME fixed table as `Backend.dtGap` (C19) -/
+def gapOf (backend : String) : DataType → Option String
+  | .utf8View => if backend == "arrow2" then some "Utf8View" else none
+  | .binaryView => if backend == "arrow2" then some "BinaryView" else none
+  | .decimal128 _ s => if backend == "arrow2" && s < 0 then some "Decimal128(negative-scale)" else none
+  | .fixedSizeBinary n => if backend == "arrow2" && n ≤ 0 then some "FixedSizeBinary(0)" else none
+  | .runEndEncoded _ _ => if backend == "arrow2" then some "RunEndEncoded" else none
+  | .interval _ => if backend == "arrow2" then some "Interval" else none
+  | _ => none
+
+partial def gapsOfField (backend : String) (f : Field) : List String :=
+  (gapOf backend f.dataType).toList ++ match f.dataType with
+  | .struct fs => fs.toList.flatMap (gapsOfField backend)
+  | .list c | .largeList c | .fixedSizeList c _ => gapsOfField backend c
+  | .map e _ => gapsOfField backend e
+  | .union fs _ => fs.toList.flatMap fun x => gapsOfField backend x.2
+  | .dictionary k v => (gapOf backend k).toList ++ (gapOf backend v).toList
+  | _ => []
+
+/-- positions known to break third-party code (recorded findings of C19; same table as `Backend.fieldSuspects`) -/
+partial def suspectsOfField (backend : String) (f : Field) : List String :=
+  let own := match f.dataType with
+    | .fixedSizeBinary n => if n ≤ 0 then ["FixedSizeBinary(0)"] else []
+    | .fixedSizeList _ n => if n ≤ 0 && backend != "arrow2" then ["FixedSizeList(0)"] else []
+    | .struct .nil => if backend != "arrow" then ["Struct()"] else []
+    | _ => []
+  own ++ match f.dataType with
+  | .struct fs => fs.toList.flatMap (suspectsOfField backend)
+  | .list c | .largeList c | .fixedSizeList c _ => suspectsOfField backend c
+  | .map e _ => suspectsOfField backend e
+  | .union fs _ => fs.toList.flatMap fun x => suspectsOfField backend x.2
+  | _ => []
+
+/-- C03 on the arrow / arrow2 outputs (`harness/src/suites/build.rs`, key "backends"): (i) arrow-rs `validate_full`
+succeeds on every array `to_arrow` returns, (ii) every array's `data_type()` equals the data type of the back end's own
+field (arrow and arrow2) and has the batch's length, (iii) `to_record_batch` succeeds whenever `to_arrow` does on a
+non-empty schema.  Restricted per back end by the fixed gap table; the outcome class of `to_arrow` / `to_arrow2` itself
+is C19's matter.  Returns the signature of the first failure and coverage tags. -/
+def backendC03 (fields : List Field) (nrows : Nat) (back : Json) : Option String × List String := Id.run do
+  let get (o : Json) (k : String) : Json := (o.getObjVal? k).toOption.getD Json.null
+  let mut tags : List String := []
+  let mut sig : Option String := none
+  for b in ["arrow", "arrow2"] do
+    let o := get back b
+    if o.isNull then continue
+    let gaps := (fields.flatMap (gapsOfField b)).eraseDups
+    let sus := (fields.flatMap (suspectsOfField b)).eraseDups
+    if (o.getObjVal? "field_err").isOk then
+      match gaps ++ sus with
+      | g :: _ => tags := s!"{b}-gap:{g}" :: tags
+      | [] => if sig.isNone then sig := some s!"build/C03/{b}/field-conversion"
+      continue
+    let run := (get o "run").getStr?.toOption.getD "?"
+    if run != "ok" then
+      tags := s!"{b}:{run}" :: tags
+      continue
+    tags := s!"{b}-checked" :: tags
+    let arrays := match get o "arrays" with | .arr a => a.toList | _ => []
+    if arrays.length != fields.length && sig.isNone then sig := some s!"build/C03/{b}/array-count"
+    for (f, x) in fields.zip arrays do
+      if sig.isSome then break
+      let susF := (suspectsOfField b f).headD ""
+      let tail := if susF == "" then f.dataType.ctor else s!"{f.dataType.ctor}~{susF}"
+      if b == "arrow" && get x "valid" != Json.str "ok" then
+        sig := some s!"build/C03/arrow/validate_full={(get x "valid").getStr?.toOption.getD "?"}/{tail}"
+      else if get x "type_eq" != Json.bool true then sig := some s!"build/C03/{b}/type/{tail}"
+      else if (get x "len").getNat?.toOption != some nrows then sig := some s!"build/C03/{b}/length/{tail}"
+    if b == "arrow" && !fields.isEmpty then
+      let bo := get back "batch"
+      let brun := (get bo "run").getStr?.toOption.getD "?"
+      if brun == "ok" then
+        tags := "batch-checked" :: tags
+        if (get bo "rows").getNat?.toOption != some nrows && sig.isNone then sig := some "build/C03/batch/rows"
+      else if sig.isNone then
+        sig := some s!"build/C03/batch={brun}/{(sus.headD "-")}"
+  return (sig, tags)
 
 def annOfImpl (err : Json) : List (String × String) :=
   match err.getObjVal? "ann" with
@@ -167,7 +290,8 @@ def handle (j : Json) : Except String Verdict := do
         let iarrs ← (← getArr impl "ok").toList.mapM arrOfJson
         let wfAll := iarrs.length == fields.length &&
           (fields.zip iarrs).all (fun (f, a) => WF f a && (decodeAll a).length == rows.length)
-        pure (if wfAll then "na" else "fail")
+        let (backSig, _) := backendC03 fields rows.length ((getOpt j "backends").getD Json.null)
+        pure (if wfAll && backSig.isNone then "na" else "fail")
       else pure "na" : Except String String)
     -- a malformed call stream that is ACCEPTED with arrays that are not well formed is a failure that was not reported
     -- as an error (C16) and an accepted unrepresentable input (C05): finding C16-map-key-value-alternation
@@ -248,17 +372,22 @@ def handle (j : Json) : Except String Verdict := do
     let undet := match mroot with
       | .ok root => anyUndet root
       | .error _ => false
-    -- no exemption for malformed call streams: whatever is accepted must be well formed (`C03_wf` has no `rawOK`)
-    let c03 := if wfAll then "pass" else "fail"
+    -- no exemption for malformed call streams: whatever is accepted must be well formed (`C03_wfS` has no `rawOK`)
+    -- … and the same on the arrow / arrow2 outputs (validate_full, data_type() = the field's, record batch)
+    let (backSig, backTags) := backendC03 fields rows.length ((getOpt j "backends").getD Json.null)
+    let c03 := if wfAll && backSig.isNone then "pass" else "fail"
+    let tags := backTags ++ tags
     -- … and a malformed stream accepted with such arrays is also a C16 / C05 failure (see above)
     let c16 := if anyMalformed && !wfAll && !fields.any hasFsb0 then "fail" else c16
     let c05 := if anyMalformed && !wfAll && !fields.any hasFsb0 then "fail" else c05
     let badCol := firstNotWf.getD 0
+    -- a column that is structurally valid and of the right length but of ANOTHER data type: name the aspect
     let cul := match fields[badCol]?, iarrs[badCol]? with
-      | some f, some a => if firstNotWf.isSome then culpritSig f a else "-"
+      | some f, some a => if firstNotWf.isSome then culpritSig f a (fields.any hasFsb0) else "-"
       | _, _ => "-"
     let sig :=
-      if c03 == "fail" then s!"build/C03/{cul}"
+      if !wfAll then s!"build/C03/{cul}"
+      else if c03 == "fail" then backSig.getD "build/C03/?"
       else if c01 == "fail" then s!"build/C01/{cul}"
       else if c05 == "fail" then s!"build/C05/accepted-unrepresentable"
       else if !same then "build/decoded-differs"
